@@ -779,6 +779,20 @@ func (c *Ctx) vecLenIn(v ssa.Value, env map[ssa.Value]lin, depth int) (lin, bool
 		return c.vecLenIn(x.X, env, depth)
 	case *ssa.MakeSlice:
 		return linOf(x.Len, env, func(a ssa.Value) (lin, bool) { return c.vecLenIn(a, env, depth) })
+	case *ssa.Slice:
+		vl := func(a ssa.Value) (lin, bool) { return c.vecLenIn(a, env, depth) }
+		hi, okH := c.vecLenIn(x.X, env, depth)
+		if x.High != nil {
+			hi, okH = linOf(x.High, env, vl)
+		}
+		lo, okL := linConst(0), true
+		if x.Low != nil {
+			lo, okL = linOf(x.Low, env, vl)
+		}
+		if !okH || !okL {
+			return lin{}, false
+		}
+		return hi.add(lo, -1), true
 	case *ssa.Call:
 		f := ir.Static(x)
 		if f == nil || depth <= 0 || len(f.Blocks) == 0 {
@@ -1365,6 +1379,7 @@ func mat12(c *Ctx) {
 			continue
 		}
 		c.Mark(fn)
+		c.vectorBounds(fn)
 		// loop headers: blocks with a predecessor they dominate
 		for _, h := range fn.Blocks {
 			var backPreds []int
@@ -1698,4 +1713,189 @@ func notDashPrefixedAt(fn *ssa.Function, v ssa.Value, b *ssa.BasicBlock) bool {
 		return false
 	}
 	return !ir.Reach(fn.Blocks[0], nil, cut)[b]
+}
+
+// vectorBounds: every element read args[e] and every re-slice args[e:] of the argument vector in fn is
+// within bounds: from the branch outcomes that dominate it (and, for the scan helpers, from the caller's
+// loop condition idx < len(args)) the inequality len(args) - e - 1 >= 0 (resp. len(args) - e >= 0)
+// follows by linear arithmetic over len(args) and the int parameters.
+func (c *Ctx) vectorBounds(fn *ssa.Function) {
+	var args *ssa.Parameter
+	for _, p := range fn.Params {
+		if isStringSlice(p.Type()) {
+			args = p
+		}
+	}
+	if args == nil {
+		return
+	}
+	env := map[ssa.Value]lin{}
+	vl := func(a ssa.Value) (lin, bool) { return c.vecLenIn(a, env, 2) }
+	L := lin{t: map[linKey]int64{{args, true}: 1}}
+	// facts e >= 0 from a branch outcome; neqs collects the differences known to be non-zero
+	var neqs []lin
+	factsOf := func(v ssa.Value, want bool) []lin {
+		bo, ok := v.(*ssa.BinOp)
+		if !ok {
+			return nil
+		}
+		x, okx := linOf(bo.X, env, vl)
+		y, oky := linOf(bo.Y, env, vl)
+		if !okx || !oky {
+			return nil
+		}
+		xy := x.add(y, -1) // x - y
+		yx := y.add(x, -1)
+		m1 := linConst(-1)
+		op := bo.Op
+		if !want {
+			switch op {
+			case token.LSS:
+				op = token.GEQ
+			case token.LEQ:
+				op = token.GTR
+			case token.GTR:
+				op = token.LEQ
+			case token.GEQ:
+				op = token.LSS
+			case token.EQL:
+				op = token.NEQ
+			case token.NEQ:
+				op = token.EQL
+			}
+		}
+		switch op {
+		case token.LSS:
+			return []lin{yx.add(m1, 1)}
+		case token.LEQ:
+			return []lin{yx}
+		case token.GTR:
+			return []lin{xy.add(m1, 1)}
+		case token.GEQ:
+			return []lin{xy}
+		case token.EQL:
+			return []lin{xy, yx}
+		case token.NEQ:
+			// a length that is not 0 is at least 1
+			if k, isK := y.isConst(); isK && k == 0 {
+				if lc, isCall := bo.X.(*ssa.Call); isCall {
+					if bi, isB := lc.Call.Value.(*ssa.Builtin); isB && bi.Name() == "len" {
+						return []lin{x.add(m1, 1)}
+					}
+				}
+			}
+			neqs = append(neqs, xy)
+		}
+		return nil
+	}
+	// precondition from the callers: idx < len(args) at every call
+	var pre []lin
+	var idxParam *ssa.Parameter
+	for _, p := range fn.Params {
+		if b, ok := p.Type().Underlying().(*types.Basic); ok && b.Kind() == types.Int {
+			idxParam = p
+		}
+	}
+	if idxParam != nil {
+		all, n := true, 0
+		for _, caller := range c.pkgFuncsDeep("internal/matcher") {
+			for _, call := range ir.Calls(caller) {
+				cv, ok := call.(*ssa.Call)
+				if !ok || ir.Static(cv) != fn {
+					continue
+				}
+				n++
+				// positions of args and idx among the call's arguments
+				var av, iv ssa.Value
+				for i, p := range fn.Params {
+					if i < len(cv.Call.Args) {
+						if p == args {
+							av = cv.Call.Args[i]
+						}
+						if p == idxParam {
+							iv = cv.Call.Args[i]
+						}
+					}
+				}
+				okCall := false
+				for _, cd := range ir.DominatingConds(cv.Block()) {
+					bo, isBo := cd.V.(*ssa.BinOp)
+					if !isBo {
+						continue
+					}
+					isLenOf := func(v ssa.Value) bool {
+						lc, isCall := v.(*ssa.Call)
+						if !isCall {
+							return false
+						}
+						bi, isB := lc.Call.Value.(*ssa.Builtin)
+						return isB && bi.Name() == "len" && lc.Call.Args[0] == av
+					}
+					if (bo.Op == token.LSS && cd.Want && bo.X == iv && isLenOf(bo.Y)) || (bo.Op == token.GEQ && !cd.Want && bo.X == iv && isLenOf(bo.Y)) ||
+						(bo.Op == token.GTR && cd.Want && bo.Y == iv && isLenOf(bo.X)) {
+						okCall = true
+					}
+				}
+				if !okCall {
+					all = false
+				}
+			}
+		}
+		if all && n > 0 {
+			I := lin{t: map[linKey]int64{{idxParam, false}: 1}}
+			pre = append(pre, L.add(I, -1).add(linConst(1), -1)) // L - idx - 1 >= 0
+		}
+	}
+	implies := func(goal lin, facts []lin) bool {
+		if k, isK := goal.isConst(); isK && k >= 0 {
+			return true
+		}
+		for _, f := range facts {
+			d := goal.add(f, -1)
+			if k, isK := d.isConst(); isK && k >= 0 {
+				return true
+			}
+		}
+		return false
+	}
+	check := func(in ssa.Instruction, idx ssa.Value, slack int64, what string) {
+		e, ok := linOf(idx, env, vl)
+		key := fmt.Sprintf("%s:bounds@%s", Q(fn), relLine(c, fn, in.Pos()))
+		if !ok {
+			c.Undecided(key, in.Pos(), "index expression not linear")
+			return
+		}
+		goal := L.add(e, -1).add(linConst(slack), -1)
+		facts := append([]lin(nil), pre...)
+		neqs = nil
+		for _, cd := range ir.DominatingConds(in.Block()) {
+			facts = append(facts, factsOf(cd.V, cd.Want)...)
+		}
+		// integers: d != 0 and d >= 0 give d >= 1
+		for _, d := range neqs {
+			neg := lin{}.add(d, -1)
+			if implies(d, facts) {
+				facts = append(facts, d.add(linConst(1), -1))
+			} else if implies(neg, facts) {
+				facts = append(facts, neg.add(linConst(1), -1))
+			}
+		}
+		// the lower bound: e >= 0 from e = idx (+k), idx a loop/scan index >= 0 is assumed for parameters
+		c.Check(implies(goal, facts), key, in.Pos(), what+" is within the vector by the dominating length tests", what+" is not covered by a dominating test of the vector's length (index out of range)")
+	}
+	ir.Instrs(fn, func(in ssa.Instruction) {
+		switch x := in.(type) {
+		case *ssa.IndexAddr:
+			if x.X == ssa.Value(args) {
+				if ir.NonNegativeIndex(x.Index) && isLoopIndexOver(x.Index, x.X) {
+					return // the loop condition bounds it
+				}
+				check(x, x.Index, 1, "the element read")
+			}
+		case *ssa.Slice:
+			if x.X == ssa.Value(args) && x.Low != nil {
+				check(x, x.Low, 0, "the re-slice")
+			}
+		}
+	})
 }
